@@ -473,6 +473,40 @@ class Tracer:
 
 EXT = {"rtf": "rtf", "docx": "docx", "pdf": "pdf", "html": "html"}
 OLD = b"OLD CONTENT \xe9\n"
+# what a pre-existing target file holds (case key `old`): unrelated bytes that are not UTF-8 (the default), unrelated
+# text, nothing, or a *twin* of the document's own RTF code — byte-identical, with other line ends, behind a BOM,
+# cut short, with trailing blanks, in another letter case, as UTF-16
+OLDS = ["fixed", "text", "empty", "twin", "twin_crlf", "twin_cr", "twin_bom", "twin_trunc", "twin_trail", "twin_upper",
+        "twin_utf16", "twin_nl"]
+
+
+def old_content(kind: str, code: str | None) -> bytes:
+    if kind == "fixed" or (code is None and kind.startswith("twin")):
+        return OLD
+    if kind == "text":
+        return b"an earlier report\nof another table\n"
+    if kind == "empty":
+        return b""
+    b = code.encode("utf-8")
+    if kind == "twin":
+        return b
+    if kind == "twin_crlf":
+        return b.replace(b"\n", b"\r\n")
+    if kind == "twin_cr":
+        return b.replace(b"\n", b"\r")
+    if kind == "twin_bom":
+        return b"\xef\xbb\xbf" + b
+    if kind == "twin_trunc":
+        return b[: max(1, len(b) * 2 // 3)]
+    if kind == "twin_trail":
+        return b + b"\n"
+    if kind == "twin_upper":
+        return b.upper()
+    if kind == "twin_utf16":
+        return code.encode("utf-16")
+    if kind == "twin_nl":
+        return b.replace(b"\n", b"\n\n")
+    raise ValueError(kind)
 
 
 def default_name(fn: str) -> str:
@@ -648,13 +682,27 @@ def run_export(case: dict) -> dict:
             elif mode == "lookup_fail":
                 pass
         method = getattr(doc, "write_" + fn)
+        old = case.get("old") or "fixed"
+        if old != "fixed" and target.is_file():
+            code = None
+            if old.startswith("twin"):
+                try:
+                    with contextlib.redirect_stdout(io.StringIO()):
+                        code = doc.rtf_encode()
+                except Exception:  # noqa: BLE001  (a document that does not encode has no twin)
+                    code = None
+            target.write_bytes(old_content(old, code))
         os.environ["HOME"] = str(S / "work")
         os.chdir(S / "work")
+        pre_exc = None
         if case.get("twice"):
-            # an earlier, unobserved export to the same path (D23 scenario)
+            # an earlier, unobserved export to the same path (D23 scenario); what it raises is reported, not fatal
             with contextlib.redirect_stdout(io.StringIO()):
                 pre = StubConverter("okRes", []) if fn != "rtf" else None
-                method(arg, **({"converter": pre} if pre else {}))
+                try:
+                    method(arg, **({"converter": pre} if pre else {}))
+                except Exception as e:  # noqa: BLE001
+                    pre_exc = type(e).__name__ + ": " + str(e)[:160]
         before = snapshot(S)
         tr = Tracer(libdir, log, case.get("fault"), bool(case.get("sites")))
         exc = None
@@ -727,7 +775,7 @@ def run_export(case: dict) -> dict:
             conv_in_name=(stub.in_name if stub is not None else tr.conv_in_name),
             conv_out_name=out_seen,
             res_name=((out_seen + "_files") if (has_res and out_seen) else None),
-            form=form, arg=os.fspath(arg),
+            form=form, arg=os.fspath(arg), pre_exc=pre_exc, old=old,
             proc=(dict(proc, runs=proc_runs) if proc is not None else None),
         )
     finally:
